@@ -55,7 +55,7 @@ pub struct MultipartBody {
 #[async_trait]
 impl ExclusiveExtractor for MultipartBody {
     async fn from_request<Context: ServerContext>(
-        _rqctx: &RequestContext<Context>,
+        rqctx: &RequestContext<Context>,
         request: hyper::Request<crate::Body>,
     ) -> Result<Self, HttpError> {
         let (parts, body) = request.into_parts();
@@ -89,9 +89,11 @@ impl ExclusiveExtractor for MultipartBody {
                     format!("invalid content type: {}", e),
                 ),
             })?;
-        Ok(MultipartBody {
-            content: multer::Multipart::new(body.into_data_stream(), boundary),
-        })
+        // Read the body through the same capped stream as the other body
+        // extractors so that the request body size limit applies here, too.
+        let stream = StreamingBody::new(body, rqctx.request_body_max_bytes())
+            .into_stream();
+        Ok(MultipartBody { content: multer::Multipart::new(stream, boundary) })
     }
 
     fn metadata(
